@@ -72,7 +72,12 @@ func failKey(o spec.Outcome) string {
 	case "PANIC":
 		return fmt.Sprintf("panic | %s | %s", o.Site, normDetail(o.Detail))
 	case "BUDGET":
-		return fmt.Sprintf("budget(%s) | %s", o.Detail, o.Site)
+		// loop / ticks / bytes are three meters of the same thing (work that does not end in time); which one
+		// trips first depends on the input's size, so they form one class per site. depth is runaway recursion.
+		if o.Detail == "depth" {
+			return "budget(depth) | " + o.Site
+		}
+		return "budget(time/memory) | " + o.Site
 	case "FATAL":
 		return fmt.Sprintf("fatal | %s | %s", o.Site, normDetail(o.Detail))
 	case "DEADLOCK":
@@ -165,8 +170,13 @@ func (cx *Ctx) oracleResolutions(rs []JobResult) (bool, string, string, string) 
 		}
 	}
 	job := rs[0].Job
+	// A run that exhausts its simulated-time budget has no result to compare: whether it hangs is C01's
+	// question, and a budget hit under one order but not another may be a legitimately slower order.
+	if ocs[0].Verdict == "BUDGET" {
+		return false, "", "", ""
+	}
 	for j := 1; j < len(ocs); j++ {
-		if ocs[j].Hash == ocs[0].Hash && ocs[j].Verdict == ocs[0].Verdict {
+		if ocs[j].Verdict == "BUDGET" || (ocs[j].Hash == ocs[0].Hash && ocs[j].Verdict == ocs[0].Verdict) {
 			continue
 		}
 		r0, rj := job.Res[0], job.Res[j]
